@@ -8,6 +8,7 @@ import (
 	"errors"
 	"fmt"
 	"io"
+	"math"
 	"reflect"
 	"strconv"
 	"strings"
@@ -40,7 +41,82 @@ type TestRec struct {
 	Blob []byte
 }
 
-type exec struct{ w *record.Wrapper }
+// NestRec is a typed record whose JSON encoder serialises ANOTHER record (with other metadata) through
+// MarshalRecord before returning its own payload: a re-entrant use of the serialiser, as happens when records
+// embed or reference other records.
+type NestRec struct {
+	record.Base
+	sync.Mutex
+
+	V        int
+	inner    record.Record
+	innerOut []byte
+	innerErr error
+}
+
+// MarshalJSON implements json.Marshaler.
+func (n *NestRec) MarshalJSON() ([]byte, error) {
+	if n.inner != nil {
+		n.innerOut, n.innerErr = n.inner.MarshalRecord(n.inner)
+	}
+	return json.Marshal(struct{ V int }{n.V})
+}
+
+type exec struct {
+	w *record.Wrapper
+	r *TestRec // typed record with key history (bnew / setkey / resetkey / keyq)
+}
+
+// held: the most recent byte slices the serialiser handed out (process-wide, across cases: a slice that is
+// overwritten by a LATER serialisation is what this is for), looked at again by the `held` op.
+var held []heldSlice
+
+type heldSlice struct {
+	data []byte
+	was  string
+}
+
+func hold(b []byte) string {
+	h := hxlib.Hex(b)
+	if len(b) > 0 {
+		held = append(held, heldSlice{b, h})
+		if len(held) > 8 {
+			held = held[1:]
+		}
+	}
+	return h
+}
+
+// marshalErrClass maps the errors of Marshal / MarshalRecord to the model's classes.
+func marshalErrClass(err error) string {
+	switch {
+	case err.Error() == "missing meta":
+		return "err missing-meta"
+	case strings.Contains(err.Error(), "format mismatch"):
+		return "err mismatch"
+	}
+	return "err codec"
+}
+
+// metaOrNil parses `nil` or six metadata words from the front of f.
+func metaOrNil(f []string) (m *record.Meta, rest []string, ok bool) {
+	if len(f) >= 1 && f[0] == "nil" {
+		return nil, f[1:], true
+	}
+	if len(f) < 6 {
+		return nil, nil, false
+	}
+	m, ok = mkMeta(f[:6])
+	return m, f[6:], ok
+}
+
+func showBase(r record.Record) string {
+	t := "f"
+	if r.KeyIsSet() {
+		t = "t"
+	}
+	return hxlib.Hex([]byte(r.Key())) + " " + hxlib.Hex([]byte(r.DatabaseName())) + " " + hxlib.Hex([]byte(r.DatabaseKey())) + " " + t
+}
 
 func mkMeta(f []string) (*record.Meta, bool) {
 	if len(f) != 6 {
@@ -158,12 +234,121 @@ func mkRec(seed int64) *TestRec {
 	return r
 }
 
+// concurrentRoundTrips: n goroutines, each with metadata and payload of its own, serialise typed records and
+// wrappers in a tight loop and parse their own output back. Returns "ok" or the first failure.
+func concurrentRoundTrips(n, iters int, seed int64) string {
+	var wg sync.WaitGroup
+	start := make(chan struct{})
+	fails := make(chan string, n)
+	for g := 0; g < n; g++ {
+		wg.Add(1)
+		go func(g int) {
+			defer wg.Done()
+			defer func() {
+				if r := recover(); r != nil {
+					fails <- fmt.Sprintf("PANIC g=%d: %v", g, r)
+				}
+			}()
+			mk := func(it int) *record.Meta {
+				m := &record.Meta{Created: seed*1000 + int64(g), Modified: int64(g)*7919 + 1, Expires: int64(g%3) * (1700000000 + int64(g)), Deleted: -int64(g % 4 * 60)}
+				if it%17 == 16 {
+					m.Deleted = 1700000000 + int64(g) // now and then a deleted record
+				}
+				if g&1 == 1 {
+					m.MakeSecret()
+				}
+				if g&2 == 2 {
+					m.MakeCrownJewel()
+				}
+				return m
+			}
+			payload := bytes.Repeat([]byte{byte('a' + g%26)}, 1+g*37%300)
+			<-start
+			for it := 0; it < iters; it++ {
+				m := mk(it)
+				want := showMeta(m)
+				var out []byte
+				var err error
+				typed := it%2 == 0
+				if typed {
+					r := mkRec(int64(g))
+					r.SetKey("db:k")
+					r.SetMeta(m)
+					out, err = r.MarshalRecord(r)
+				} else {
+					w, _ := record.NewWrapper("db:k", m, dsd.RAW, payload)
+					out, err = w.MarshalRecord(w)
+				}
+				if err != nil {
+					fails <- fmt.Sprintf("FAIL g=%d iter=%d marshal: %v", g, it, err)
+					return
+				}
+				w, err := record.NewRawWrapper("db", "k", out)
+				if err != nil {
+					fails <- fmt.Sprintf("FAIL g=%d iter=%d parse of own output: %v", g, it, err)
+					return
+				}
+				if got := showMeta(w.Meta()); got != want {
+					fails <- fmt.Sprintf("FAIL g=%d iter=%d typed=%v metadata came back as %s, put in %s", g, it, typed, got, want)
+					return
+				}
+				switch {
+				case m.Deleted > 0:
+					if len(w.Data) != 0 {
+						fails <- fmt.Sprintf("FAIL g=%d iter=%d deleted record carries data", g, it)
+						return
+					}
+				case typed:
+					back := &TestRec{}
+					if err := record.Unwrap(w, back); err != nil || !reflect.DeepEqual(exported(back), exported(mkRec(int64(g)))) {
+						fails <- fmt.Sprintf("FAIL g=%d iter=%d typed record came back different (%v)", g, it, err)
+						return
+					}
+				default:
+					if w.Format != dsd.RAW || !bytes.Equal(w.Data, payload) {
+						fails <- fmt.Sprintf("FAIL g=%d iter=%d wrapper data came back different", g, it)
+						return
+					}
+				}
+			}
+		}(g)
+	}
+	close(start)
+	wg.Wait()
+	close(fails)
+	for f := range fails {
+		return f
+	}
+	return "ok"
+}
+
+// mkRecX: seeds below 0 give records the JSON codec refuses (NaN / infinity are not representable).
+func mkRecX(seed int64) *TestRec {
+	if seed >= 0 {
+		return mkRec(seed)
+	}
+	r := mkRec(-seed)
+	if seed%2 == 0 {
+		r.F = math.NaN()
+	} else {
+		r.F = math.Inf(1)
+	}
+	return r
+}
+
 func (e *exec) Do(line string) string {
 	f := strings.Fields(line)
 	if len(f) == 0 {
 		return "bad-op"
 	}
 	switch f[0] {
+	case "held": // slices returned by earlier serialisations must still read as they did when they were returned
+		for _, h := range held {
+			if now := hxlib.Hex(h.data); now != h.was {
+				return "changed: a slice returned as " + h.was + " now reads " + now
+			}
+		}
+		return "same"
 	case "wnew":
 		if len(f) != 9 {
 			return "bad-op"
@@ -198,9 +383,364 @@ func (e *exec) Do(line string) string {
 		}
 		b, err := e.w.MarshalRecord(e.w)
 		if err != nil {
-			return "err marshal " + err.Error()
+			return "err marshal " + strings.TrimPrefix(marshalErrClass(err), "err ")
 		}
 		return e.Do("parse " + hxlib.Hex(b))
+	case "wparse": // a wrapper with history: it comes from NewRawWrapper
+		b := hxlib.UnHex(f[1])
+		w, err := record.NewRawWrapper("db", "key", b)
+		e.w = w
+		if delegated(b) {
+			return "delegated"
+		}
+		if err != nil {
+			e.w = nil
+			return "err " + parseErrClass(err)
+		}
+		return fmt.Sprintf("ok %s %d %s", showMeta(w.Meta()), w.Format, hxlib.Hex(w.Data))
+	case "wdata": // the public Data field changes: new slice / overwritten in place / re-used backing array
+		if e.w == nil || len(f) != 3 {
+			return "bad-op"
+		}
+		d := hxlib.UnHex(f[2])
+		switch {
+		case f[1] == "inplace" && len(d) == len(e.w.Data):
+			copy(e.w.Data, d)
+		case f[1] == "reuse":
+			e.w.Data = append(e.w.Data[:0], d...)
+		default:
+			e.w.Data = d
+		}
+		return "ok"
+	case "wfmt":
+		fm, err := strconv.Atoi(f[1])
+		if e.w == nil || err != nil || fm > 255 {
+			return "bad-op"
+		}
+		e.w.Format = uint8(fm)
+		return "ok"
+	case "wacc": // implementation only: the data is changed through the record's accessor (sjson returns a new slice)
+		if e.w == nil || len(f) != 3 {
+			return "bad-op"
+		}
+		acc := e.w.GetAccessor(e.w)
+		if acc == nil {
+			return "noacc"
+		}
+		var v any
+		if err := json.Unmarshal(hxlib.UnHex(f[2]), &v); err != nil {
+			return "bad-op"
+		}
+		if n, ok := v.(float64); ok {
+			v = int64(n)
+		}
+		if err := acc.Set(string(hxlib.UnHex(f[1])), v); err != nil {
+			return "err set"
+		}
+		return "d " + hxlib.Hex(e.w.Data)
+	case "wnewnil": // a wrapper without metadata
+		if len(f) != 3 {
+			return "bad-op"
+		}
+		fm, err := strconv.Atoi(f[1])
+		if err != nil || fm > 255 {
+			return "bad-op"
+		}
+		e.w, _ = record.NewWrapper("db:key", nil, uint8(fm), hxlib.UnHex(f[2]))
+		return "ok"
+	case "wm": // Wrapper.Marshal(r, format)
+		fm, err := strconv.Atoi(f[1])
+		if e.w == nil || err != nil || fm > 255 {
+			return "bad-op"
+		}
+		b, err := e.w.Marshal(e.w, uint8(fm))
+		switch {
+		case err != nil:
+			return marshalErrClass(err)
+		case b == nil:
+			return "nil"
+		}
+		return hold(b)
+	case "wmr": // Wrapper.MarshalRecord(r)
+		if e.w == nil {
+			return "bad-op"
+		}
+		b, err := e.w.MarshalRecord(e.w)
+		if err != nil {
+			return marshalErrClass(err)
+		}
+		return hold(b)
+	case "bnew":
+		e.r = &TestRec{}
+		return "ok"
+	case "setkey":
+		if e.r == nil {
+			return "bad-op"
+		}
+		e.r.SetKey(string(hxlib.UnHex(f[1])))
+		return "ok"
+	case "resetkey":
+		if e.r == nil {
+			return "bad-op"
+		}
+		e.r.ResetKey()
+		return "ok"
+	case "keyq":
+		if e.r == nil {
+			return "bad-op"
+		}
+		return showBase(e.r)
+	case "gmb": // GenCodeMarshal into a caller-supplied buffer (len f[2], cap f[1], pre-filled)
+		capn, err1 := strconv.Atoi(f[1])
+		ln, err2 := strconv.Atoi(f[2])
+		m, ok := mkMeta(f[3:])
+		if !ok || err1 != nil || err2 != nil || ln > capn {
+			return "bad-op"
+		}
+		buf := make([]byte, ln, capn)
+		full := buf[:capn]
+		for i := range full {
+			full[i] = 0xAA
+		}
+		b, err := m.GenCodeMarshal(buf)
+		if err != nil {
+			return "err"
+		}
+		return hold(b)
+	case "bm": // Base.Marshal(self, format) of a typed record
+		m, rest, ok := metaOrNil(f[1:])
+		if !ok || len(rest) != 2 {
+			return "bad-op"
+		}
+		fm, err1 := strconv.Atoi(rest[0])
+		seed, err2 := strconv.ParseInt(rest[1], 10, 64)
+		if err1 != nil || err2 != nil || fm > 255 {
+			return "bad-op"
+		}
+		r := mkRecX(seed)
+		r.SetKey("db:key")
+		if m != nil {
+			r.SetMeta(m)
+		}
+		b, err := r.Marshal(r, uint8(fm))
+		switch {
+		case err != nil:
+			return marshalErrClass(err)
+		case b == nil:
+			return "nil"
+		}
+		return hold(b)
+	case "mbr": // Base.MarshalRecord(self), incl. records without metadata and records the JSON codec refuses
+		m, rest, ok := metaOrNil(f[1:])
+		if !ok || len(rest) != 1 {
+			return "bad-op"
+		}
+		seed, err := strconv.ParseInt(rest[0], 10, 64)
+		if err != nil {
+			return "bad-op"
+		}
+		r := mkRecX(seed)
+		r.SetKey("db:key")
+		if m != nil {
+			r.SetMeta(m)
+		}
+		b, err := r.MarshalRecord(r)
+		if err != nil {
+			return marshalErrClass(err)
+		}
+		return hold(b)
+	case "uwn": // Unwrap of something that is not a wrapper
+		src := mkRec(1)
+		src.SetKey("db:key")
+		src.CreateMeta()
+		n := &TestRec{}
+		err := record.Unwrap(src, n)
+		switch {
+		case err == nil:
+			return "ok"
+		case strings.HasPrefix(err.Error(), "cannot unwrap"):
+			if n.KeyIsSet() || n.Meta() != nil {
+				return "FAIL target changed although Unwrap failed"
+			}
+			return "err not-wrapper"
+		}
+		return "err load"
+	case "uw": // Unwrap(wrapper, r): uw <db> <key> <meta 6> <fmt> <data> <target key|-> <ok|fail>
+		if len(f) != 13 {
+			return "bad-op"
+		}
+		m, ok := mkMeta(f[3:9])
+		fm, err := strconv.Atoi(f[9])
+		if !ok || err != nil || fm > 127 || m.Deleted > 0 {
+			return "bad-op"
+		}
+		w0, _ := record.NewWrapper("x:y", m, uint8(fm), hxlib.UnHex(f[10]))
+		enc, err := w0.MarshalRecord(w0)
+		if err != nil {
+			return "bad-op"
+		}
+		w, err := record.NewRawWrapper(string(hxlib.UnHex(f[1])), string(hxlib.UnHex(f[2])), enc)
+		if err != nil {
+			return "FAIL parse: " + err.Error()
+		}
+		n := &TestRec{}
+		if f[11] != "-" {
+			n.SetKey(string(hxlib.UnHex(f[11])))
+		}
+		if !w.IsWrapped() || n.IsWrapped() {
+			return "FAIL IsWrapped"
+		}
+		_ = w.GetAccessor(w) // exercised for totality only (accessors are outside this property)
+		before := showBase(n)
+		if err := record.Unwrap(w, n); err != nil {
+			if showBase(n) != before || n.Meta() != nil {
+				return "FAIL target changed although Unwrap failed"
+			}
+			return "err load"
+		}
+		_ = n.GetAccessor(n)
+		ms := "nil"
+		if n.Meta() != nil {
+			ms = showMeta(n.Meta())
+		}
+		return "ok " + showBase(n) + " " + ms
+	case "rtn": // re-entrant serialisation: rtn <metaA 6> <metaB 6> <kind> <v>
+		if len(f) != 15 {
+			return "bad-op"
+		}
+		ma, ok1 := mkMeta(f[1:7])
+		mb, ok2 := mkMeta(f[7:13])
+		v, err := strconv.Atoi(f[14])
+		if !ok1 || !ok2 || err != nil {
+			return "bad-op"
+		}
+		var inner record.Record
+		switch f[13] {
+		case "0":
+			t := mkRec(int64(v))
+			t.SetKey("db:inner")
+			t.SetMeta(mb)
+			inner = t
+		case "1":
+			inner, _ = record.NewWrapper("db:inner", mb, dsd.JSON, []byte(`{"i":1}`))
+		default: // two levels
+			w, _ := record.NewWrapper("db:innermost", mb.Duplicate(), dsd.RAW, []byte("xyz"))
+			mid := &NestRec{V: -v, inner: w}
+			mid.SetKey("db:inner")
+			mid.SetMeta(mb)
+			inner = mid
+		}
+		a := &NestRec{V: v, inner: inner}
+		a.SetKey("db:outer")
+		a.SetMeta(ma)
+		out, err := a.MarshalRecord(a)
+		if err != nil {
+			return "FAIL marshal outer: " + err.Error()
+		}
+		wa, err := record.NewRawWrapper("db", "outer", out)
+		if err != nil {
+			return "FAIL parse outer: " + err.Error()
+		}
+		res := showMeta(wa.Meta())
+		if ma.Deleted > 0 {
+			// a deleted record has no data section: its encoder (and the nested serialisation) never runs
+			return res + " deleted"
+		}
+		var back struct{ V int }
+		if err := dsd.LoadAsFormat(wa.Data, wa.Format, &back); err != nil {
+			return "FAIL outer data: " + err.Error()
+		}
+		res += fmt.Sprintf(" V=%d", back.V)
+		if a.innerErr != nil {
+			return "FAIL marshal inner: " + a.innerErr.Error()
+		}
+		wb, err := record.NewRawWrapper("db", "inner", a.innerOut)
+		if err != nil {
+			return "FAIL parse inner: " + err.Error()
+		}
+		return res + " | " + showMeta(wb.Meta())
+	case "conc": // concurrent serialisation: conc <goroutines> <iterations> <seed>
+		if len(f) != 4 {
+			return "bad-op"
+		}
+		n, err1 := strconv.Atoi(f[1])
+		iters, err2 := strconv.Atoi(f[2])
+		seed, err3 := strconv.ParseInt(f[3], 10, 64)
+		if err1 != nil || err2 != nil || err3 != nil || n < 1 || n > 64 {
+			return "bad-op"
+		}
+		return concurrentRoundTrips(n, iters, seed)
+	case "um": // implementation only: metadata made by CreateMeta/UpdateMeta survive the storage form
+		if len(f) != 9 {
+			return "bad-op"
+		}
+		m, ok := mkMeta(f[2:8])
+		seed, err := strconv.ParseInt(f[8], 10, 64)
+		if !ok || err != nil {
+			return "bad-op"
+		}
+		r := mkRec(seed)
+		r.SetKey("db:k")
+		switch f[1] {
+		case "0":
+			r.UpdateMeta() // creates
+		case "1":
+			r.CreateMeta()
+			r.UpdateMeta()
+		case "2":
+			r.SetMeta(m)
+			r.UpdateMeta()
+			r.UpdateMeta()
+		case "4": // metadata produced by the expiry / delete / reset methods
+			r.SetMeta(m)
+			r.Meta().SetAbsoluteExpiry(m.Modified)
+		case "5":
+			r.SetMeta(m)
+			r.Meta().SetRelativateExpiry(seed)
+			r.UpdateMeta()
+		case "6":
+			r.SetMeta(m)
+			r.Meta().Delete()
+		case "7":
+			r.SetMeta(m)
+			r.Meta().Reset()
+		default:
+			r.CreateMeta()
+		}
+		if r.Meta() == nil {
+			return "FAIL no metadata after CreateMeta/UpdateMeta"
+		}
+		var nilMeta *record.Meta
+		_, _ = nilMeta.CheckValidity(), nilMeta.CheckPermission(true, true) // nil receivers: totality only
+		want := showMeta(r.Meta())
+		b, err := r.MarshalRecord(r)
+		if err != nil {
+			return "FAIL marshal: " + err.Error()
+		}
+		w, err := record.NewRawWrapper("db", "k", b)
+		if err != nil {
+			return "FAIL parse: " + err.Error()
+		}
+		if showMeta(w.Meta()) != want {
+			return "FAIL meta " + showMeta(w.Meta()) + " want " + want
+		}
+		// the parsed record answers like the original (clock-dependent answers are judged only if the original
+		// answers the same before and after)
+		answers := func(x *record.Meta) string {
+			return fmt.Sprint(x.GetAbsoluteExpiry(), x.GetRelativeExpiry(), x.CheckValidity(), x.IsDeleted(),
+				x.CheckPermission(false, false), x.CheckPermission(true, false), x.CheckPermission(false, true), x.CheckPermission(true, true))
+		}
+		a1, p, a2 := answers(r.Meta()), answers(w.Meta()), answers(r.Meta())
+		if a1 == a2 && p != a1 {
+			return "FAIL parsed metadata answer " + p + ", the original answers " + a1
+		}
+		dup := r.Meta().Duplicate()
+		r.Meta().Created++
+		r.Meta().MakeSecret()
+		if showMeta(dup) != want {
+			return "FAIL Duplicate is not an independent copy: " + showMeta(dup) + " want " + want
+		}
+		return "ok"
 	case "mw":
 		if len(f) != 9 {
 			return "bad-op"
@@ -215,7 +755,7 @@ func (e *exec) Do(line string) string {
 		if err != nil {
 			return "err " + err.Error()
 		}
-		return hxlib.Hex(b)
+		return hold(b)
 	case "mb":
 		if len(f) != 8 {
 			return "bad-op"
@@ -232,7 +772,7 @@ func (e *exec) Do(line string) string {
 		if err != nil {
 			return "err " + err.Error()
 		}
-		return hxlib.Hex(b)
+		return hold(b)
 	case "rt": // typed-record round trip: marshal, parse, unwrap, compare (implementation only)
 		m, ok := mkMeta(f[1:7])
 		seed, err := strconv.ParseInt(f[7], 10, 64)
@@ -286,7 +826,7 @@ func (e *exec) Do(line string) string {
 		if err != nil {
 			return "err"
 		}
-		return hxlib.Hex(b)
+		return hold(b)
 	case "gu":
 		m := &record.Meta{}
 		_, err := m.GenCodeUnmarshal(hxlib.UnHex(f[1]))
@@ -345,6 +885,25 @@ func monitor(c hxlib.Case, outs []string) (vs []hxlib.Violation) {
 		switch f[0] {
 		case "wnew":
 			cur = append([]string{}, f[1:]...)
+		case "wparse":
+			cur = nil
+			if of := strings.Fields(o); len(of) == 9 && of[0] == "ok" {
+				cur = of[1:]
+			}
+		case "wnewnil":
+			cur = nil
+		case "wdata":
+			if cur != nil && o == "ok" {
+				cur[7] = hxlib.Hex(hxlib.UnHex(f[2]))
+			}
+		case "wfmt":
+			if cur != nil && o == "ok" {
+				cur[6] = f[1]
+			}
+		case "wacc": // the record's public Data field as the executor read it after the accessor call
+			if cur != nil && strings.HasPrefix(o, "d ") {
+				cur[7] = strings.TrimPrefix(o, "d ")
+			}
 		case "wset":
 			if cur != nil {
 				copy(cur[0:4], f[1:5])
@@ -404,9 +963,66 @@ func monitor(c hxlib.Case, outs []string) (vs []hxlib.Violation) {
 					}
 				}
 			}
+		case "keyq":
+			// a key with a non-empty database part set on a record without key reads back unchanged
+			if i > 0 && strings.HasPrefix(c.Lines[i-1], "setkey ") && i > 1 && strings.HasSuffix(outs[i-2], " f") {
+				k := string(hxlib.UnHex(strings.Fields(c.Lines[i-1])[1]))
+				if idx := strings.Index(k, ":"); idx > 0 {
+					if of := strings.Fields(o); len(of) != 4 || of[0] != hxlib.Hex([]byte(k)) || of[3] != "t" {
+						add(i, "C08:key-roundtrip", fmt.Sprintf("SetKey(%q) on a record without key, then Key()/KeyIsSet() = %q", k, o))
+					}
+				}
+			}
+		case "wmr":
+			// wire layout: version 1 | length-prefixed meta block (GenCode, 34 bytes) | what Marshal(AUTO) returns
+			if i > 0 && c.Lines[i-1] == "wm 0" && !strings.HasPrefix(o, "err") && !strings.HasPrefix(outs[i-1], "err") {
+				rec := hxlib.UnHex(o)
+				var ds []byte
+				if outs[i-1] != "nil" {
+					ds = hxlib.UnHex(outs[i-1])
+				}
+				if len(rec) < 37 || rec[0] != 1 || rec[1] != 35 || rec[2] != dsd.GenCode || string(rec[37:]) != string(ds) {
+					add(i, "C08:marshalrecord-layout", fmt.Sprintf("MarshalRecord = %s is not 01 | 23 | 47 <34 bytes> | Marshal(AUTO) = %s", o, outs[i-1]))
+				}
+			}
+		case "held":
+			if o != "same" {
+				add(i, "C08:returned-bytes-changed-later", o)
+			}
+		case "conc":
+			if o != "ok" {
+				add(i, "C08:concurrent-serialisation", o)
+			}
+		case "rtn":
+			// both records come back with the metadata they were given, whatever was serialised in between
+			wantA := strings.Join(f[1:7], " ")
+			wantB := strings.Join(f[7:13], " ")
+			del, _ := strconv.ParseInt(f[4], 10, 64)
+			want := fmt.Sprintf("%s V=%s | %s", wantA, f[14], wantB)
+			if del > 0 {
+				want = wantA + " deleted"
+			}
+			if o != want {
+				add(i, "C08:reentrant-serialisation", fmt.Sprintf("outer/inner record came back as %q, want %q", o, want))
+			}
+		case "uw", "uwn", "um":
+			if strings.HasPrefix(o, "FAIL") {
+				add(i, "C08:"+f[0], o)
+			}
+			if f[0] == "uw" && f[12] == "ok" && f[11] == "-" {
+				// a typed record unwrapped from the parsed form: same key, same metadata
+				key := string(hxlib.UnHex(f[1])) + ":" + string(hxlib.UnHex(f[2]))
+				of := strings.Fields(o)
+				if len(of) != 11 || of[0] != "ok" || of[1] != hxlib.Hex([]byte(key)) || strings.Join(of[5:], " ") != strings.Join(f[3:9], " ") {
+					add(i, "C08:unwrap-key-meta", fmt.Sprintf("unwrapped record has %q, want key %q and metadata %v", o, key, f[3:9]))
+				}
+			}
 		case "gu":
 			if i > 0 {
 				pf := strings.Fields(c.Lines[i-1])
+				if pf[0] == "gmb" && len(pf) > 3 {
+					pf = append([]string{"gm"}, pf[3:]...)
+				}
 				if pf[0] == "gm" && strings.HasPrefix(f[1], outs[i-1]) {
 					want := "ok " + strings.Join(pf[1:], " ")
 					if o != want {
@@ -495,6 +1111,9 @@ func generate(r *hxlib.Run, emit func(hxlib.Case)) {
 		} else {
 			r.Count("deleted:no")
 		}
+		if i%4 == 0 {
+			lines = append(lines, "held")
+		}
 		emit(hxlib.Case{Lines: lines, NonTrivial: true, Kind: "wrapper-roundtrip"})
 	}
 	// wrappers with history: serialise, change the metadata in place, serialise again
@@ -572,6 +1191,234 @@ func generate(r *hxlib.Run, emit func(hxlib.Case)) {
 		js, _ := json.Marshal(func() *TestRec { x := mkRec(int64(seed)); return x }())
 		emit(hxlib.Case{Lines: []string{mb + "@" + hxlib.Hex(js)}, NonTrivial: true, Kind: "typed-marshal"})
 	}
+	// parsed-then-modified wrappers (objects with history): NewRawWrapper → Data replaced by a new slice of the
+	// same / another length, overwritten in place, backing array re-used, Format changed, metadata changed →
+	// serialise → parse → must be the record as it is now; every format
+	sameLen := func(old []byte) []byte {
+		n := append([]byte{}, old...)
+		if len(n) == 0 {
+			return n
+		}
+		switch rng.Intn(3) {
+		case 0:
+			rng.Read(n)
+		case 1:
+			n[rng.Intn(len(n))] ^= byte(1 + rng.Intn(255))
+		default:
+			for i := range n {
+				if n[i] >= 'a' && n[i] <= 'z' {
+					n[i] = byte('a' + rng.Intn(26))
+				}
+			}
+		}
+		return n
+	}
+	for i := 0; i < r.Budget(2000, 80000); i++ {
+		fm := formats[rng.Intn(len(formats))]
+		if rng.Intn(3) != 0 && fm >= 128 {
+			fm = dsd.JSON
+		}
+		p := payload()
+		enc := ex.Do(fmt.Sprintf("mw %s %d %s", strings.Join(meta(), " "), fm, hxlib.Hex(p)))
+		if strings.HasPrefix(enc, "err") || strings.HasPrefix(enc, "PANIC") {
+			continue
+		}
+		lines := []string{"wparse " + enc}
+		if rng.Intn(2) == 0 {
+			lines = append(lines, "wrt")
+		}
+		cur := p
+		for j := 0; j < 1+rng.Intn(4); j++ {
+			switch rng.Intn(8) {
+			case 0, 1, 2:
+				cur = sameLen(cur)
+				lines = append(lines, "wdata "+[]string{"new", "new", "inplace", "reuse"}[rng.Intn(4)]+" "+hxlib.Hex(cur))
+			case 3, 4:
+				cur = payload()
+				lines = append(lines, "wdata "+[]string{"new", "reuse"}[rng.Intn(2)]+" "+hxlib.Hex(cur))
+			case 5:
+				lines = append(lines, fmt.Sprintf("wfmt %d", formats[rng.Intn(len(formats))]))
+			case 6:
+				lines = append(lines, "wset "+strings.Join(meta(), " "))
+			default:
+				lines = append(lines, []string{"wm 0", "wmr"}[rng.Intn(2)])
+			}
+			lines = append(lines, "wrt")
+		}
+		lines = append(lines, "held")
+		emit(hxlib.Case{Lines: lines, NonTrivial: true, Kind: "parsed-then-modified"})
+	}
+	// … and through the record's accessor (JSON wrappers; the accessor is outside the model: implementation only,
+	// the monitor takes the record's public Data field as it is after the call)
+	for i := 0; i < r.Budget(600, 20000); i++ {
+		names := []string{"alice", "carol", "bob", "", "zoë"}
+		doc := fmt.Sprintf(`{"Name":%q,"Level":%d,"On":%v}`, names[rng.Intn(len(names))], rng.Intn(10), rng.Intn(2) == 0)
+		enc := ex.Do(fmt.Sprintf("mw %s %d %s", strings.Join(liveMeta0(rng, meta), " "), dsd.JSON, hxlib.Hex([]byte(doc))))
+		if strings.HasPrefix(enc, "err") || strings.HasPrefix(enc, "PANIC") {
+			continue
+		}
+		lines := []string{"wparse " + enc}
+		for j := 0; j < 1+rng.Intn(3); j++ {
+			switch rng.Intn(3) {
+			case 0:
+				lines = append(lines, "wacc "+hxlib.Hex([]byte("Name"))+" "+hxlib.Hex([]byte(fmt.Sprintf("%q", names[rng.Intn(len(names))]))))
+			case 1:
+				lines = append(lines, "wacc "+hxlib.Hex([]byte("Level"))+" "+hxlib.Hex([]byte(strconv.Itoa(rng.Intn(10)))))
+			default:
+				lines = append(lines, "wacc "+hxlib.Hex([]byte("On"))+" "+hxlib.Hex([]byte([]string{"true", "false"}[rng.Intn(2)])))
+			}
+			lines = append(lines, "wrt")
+		}
+		emit(hxlib.Case{Lines: lines, NonTrivial: true, Kind: "parsed-then-accessor-set", NoModel: true})
+	}
+	// the serialiser is a pure function in the model (no state shared between calls); these two streams tie
+	// exactly that: (a) re-entrant use — a record whose JSON encoder serialises another record with other
+	// metadata before returning its own payload, (b) concurrent use — goroutines serialising records with
+	// distinct metadata and parsing their own output. Implementation only.
+	for i := 0; i < r.Budget(800, 30000); i++ {
+		emit(hxlib.Case{Lines: []string{fmt.Sprintf("rtn %s %s %d %d", strings.Join(meta(), " "), strings.Join(meta(), " "), rng.Intn(3), rng.Intn(1000))},
+			NonTrivial: true, Kind: "reentrant-serialisation", NoModel: true})
+	}
+	for i := 0; i < r.Budget(6, 60); i++ {
+		emit(hxlib.Case{Lines: []string{fmt.Sprintf("conc %d %d %d", []int{2, 4, 8, 16, 32}[rng.Intn(5)], r.Budget(1500, 20000), rng.Intn(1000))},
+			NonTrivial: true, Kind: "concurrent-serialisation", NoModel: true})
+	}
+	// key accessors of Base as a state machine: SetKey (once), ResetKey, Key / DatabaseName / DatabaseKey / KeyIsSet
+	keyParts := []string{"db", "", "a:b", ":", "cörε", "x:y:z", "::", "core", "k", "config/x", " "}
+	mkKey := func() string {
+		k := keyParts[rng.Intn(len(keyParts))]
+		if rng.Intn(4) != 0 {
+			k += ":" + keyParts[rng.Intn(len(keyParts))]
+		}
+		return k
+	}
+	for i := 0; i < r.Budget(600, 20000); i++ {
+		lines := []string{"bnew", "keyq"}
+		for j := 0; j < 1+rng.Intn(5); j++ {
+			if rng.Intn(4) == 0 {
+				lines = append(lines, "resetkey", "keyq")
+			} else {
+				lines = append(lines, "setkey "+hxlib.Hex([]byte(mkKey())), "keyq")
+			}
+		}
+		emit(hxlib.Case{Lines: lines, NonTrivial: true, Kind: "key-accessors"})
+	}
+	// Marshal / MarshalRecord of wrappers through the public methods: explicit formats, records without
+	// metadata, layout relation between the two
+	for i := 0; i < r.Budget(1500, 60000); i++ {
+		fm := formats[rng.Intn(len(formats))]
+		var lines []string
+		if rng.Intn(5) == 0 {
+			lines = append(lines, fmt.Sprintf("wnewnil %d %s", fm, hxlib.Hex(payload())))
+		} else {
+			lines = append(lines, fmt.Sprintf("wnew %s %d %s", strings.Join(meta(), " "), fm, hxlib.Hex(payload())))
+		}
+		for j := 0; j < 1+rng.Intn(3); j++ {
+			lines = append(lines, "wm 0", "wmr")
+			switch rng.Intn(4) {
+			case 0:
+				lines = append(lines, fmt.Sprintf("wm %d", fm))
+			case 1:
+				lines = append(lines, fmt.Sprintf("wm %d", formats[rng.Intn(len(formats))]))
+			case 2:
+				lines = append(lines, "wrt")
+			}
+			if !strings.HasPrefix(lines[0], "wnewnil") && rng.Intn(2) == 0 {
+				lines = append(lines, "wset "+strings.Join(meta(), " "))
+			}
+		}
+		lines = append(lines, "held")
+		emit(hxlib.Case{Lines: lines, NonTrivial: true, Kind: "wrapper-marshal-api"})
+	}
+	// Marshal / MarshalRecord of typed records: every dsd format (incl. unsupported ones and GenCode, which the
+	// harness schema does not implement), records without metadata, values the JSON codec refuses. The codec's
+	// output is a parameter of the model (computed here with dsd.Dump).
+	typedFormats := []int{dsd.JSON, dsd.JSON, dsd.CBOR, dsd.MsgPack, dsd.YAML, dsd.GenCode, dsd.RAW, dsd.AUTO, 200, 255}
+	metaOrNilWords := func() string {
+		if rng.Intn(6) == 0 {
+			return "nil"
+		}
+		return strings.Join(meta(), " ")
+	}
+	dumpWord := func(seed int64, format int) string {
+		d, err := dsd.Dump(mkRecX(seed), uint8(format))
+		if err != nil {
+			return "fail"
+		}
+		return hxlib.Hex(d)
+	}
+	for i := 0; i < r.Budget(1500, 60000); i++ {
+		seed := int64(rng.Intn(1000))
+		if rng.Intn(6) == 0 {
+			seed = -1 - int64(rng.Intn(50))
+		}
+		fm := typedFormats[rng.Intn(len(typedFormats))]
+		r.Count(fmt.Sprintf("typed-format:%d", fm))
+		lines := []string{
+			fmt.Sprintf("bm %s %d %d@%s", metaOrNilWords(), fm, seed, dumpWord(seed, fm)),
+			fmt.Sprintf("mbr %s %d@%s", metaOrNilWords(), seed, dumpWord(seed, dsd.JSON)),
+		}
+		lines = append(lines, "held")
+		emit(hxlib.Case{Lines: lines, NonTrivial: true, Kind: "typed-marshal-api"})
+	}
+	// Unwrap: wrappers with arbitrary database name / key (as storage backends hand them to NewRawWrapper),
+	// every format, valid and invalid payloads, targets with and without a key of their own
+	liveMeta := func() []string {
+		m := meta()
+		if !strings.HasPrefix(m[3], "-") {
+			m[3] = "0"
+		}
+		return m
+	}
+	for i := 0; i < r.Budget(1500, 60000); i++ {
+		if rng.Intn(40) == 0 {
+			emit(hxlib.Case{Lines: []string{"uwn"}, NonTrivial: true, Kind: "unwrap"})
+			continue
+		}
+		fm := []int{dsd.JSON, dsd.JSON, dsd.JSON, dsd.CBOR, dsd.MsgPack, dsd.RAW, dsd.GenCode, dsd.AUTO, 127, dsd.YAML}[rng.Intn(10)]
+		var data []byte
+		switch rng.Intn(6) {
+		case 0:
+			data = payload()
+		case 1:
+			data = []byte("{\"S\":1}") // valid JSON, wrong type
+		default:
+			full, err := dsd.Dump(mkRec(int64(rng.Intn(100))), uint8([]int{dsd.JSON, dsd.JSON, fm}[rng.Intn(3)]))
+			if err == nil && len(full) > 0 {
+				data = full[1:]
+			}
+		}
+		load := "fail"
+		if dsd.LoadAsFormat(data, uint8(fm), &TestRec{}) == nil {
+			load = "ok"
+		}
+		r.Count("unwrap-load:" + load)
+		tkey := "-"
+		// a target with a key of its own: only with JSON payloads — the model takes the codec to leave the
+		// (unexported) key fields of the target alone, which encoding/json does; msgpack's array form resets the
+		// whole struct (key included) before decoding, so that `SetKey` then is not ignored
+		if rng.Intn(4) == 0 && fm == dsd.JSON {
+			tkey = hxlib.Hex([]byte([]string{"other:k", ":x", "nocolon", "a:b:c"}[rng.Intn(4)]))
+		}
+		line := fmt.Sprintf("uw %s %s %s %d %s %s %s", hxlib.Hex([]byte(keyParts[rng.Intn(len(keyParts))])), hxlib.Hex([]byte(keyParts[rng.Intn(len(keyParts))])),
+			strings.Join(liveMeta(), " "), fm, hxlib.Hex(data), tkey, load)
+		emit(hxlib.Case{Lines: []string{line}, NonTrivial: true, Kind: "unwrap"})
+	}
+	// GenCodeMarshal into caller-supplied buffers (too small, exactly 34, larger; pre-filled), then unmarshal
+	for i := 0; i < r.Budget(600, 20000); i++ {
+		m := meta()
+		capn := []int{0, 1, 33, 34, 35, 64, 200}[rng.Intn(7)]
+		ln := 0
+		if capn > 0 {
+			ln = rng.Intn(capn + 1)
+		}
+		gmb := fmt.Sprintf("gmb %d %d %s", capn, ln, strings.Join(m, " "))
+		emit(hxlib.Case{Lines: []string{gmb, "gu " + ex.Do(gmb) + []string{"", "ab"}[rng.Intn(2)]}, NonTrivial: true, Kind: "gencode-buffer"})
+	}
+	// metadata made by CreateMeta / UpdateMeta survive the storage form; Duplicate is an independent copy
+	for i := 0; i < r.Budget(300, 10000); i++ {
+		emit(hxlib.Case{Lines: []string{fmt.Sprintf("um %d %s %d", rng.Intn(9), strings.Join(meta(), " "), rng.Intn(100))}, NonTrivial: true, Kind: "update-meta", NoModel: true})
+	}
 	// keys
 	for i := 0; i < 300; i++ {
 		parts := []string{"db", "", "a:b", ":", "cörε", "x:y:z", "::"}
@@ -646,6 +1493,15 @@ func generate(r *hxlib.Run, emit func(hxlib.Case)) {
 	}
 }
 
+// liveMeta0: metadata of a record that is not deleted.
+func liveMeta0(rng interface{ Intn(int) int }, meta func() []string) []string {
+	m := meta()
+	if !strings.HasPrefix(m[3], "-") {
+		m[3] = "0"
+	}
+	return m
+}
+
 func gz(b []byte) []byte {
 	var buf bytes.Buffer
 	w := gzip.NewWriter(&buf)
@@ -667,7 +1523,7 @@ func (e *execWrap) Do(line string) string {
 func main() {
 	hxlib.Main(&hxlib.Harness{
 		Prop:     "C08",
-		Rule:     "(also: wrappers with history — metadata changed in place between serialisations; records whose meta section is produced by a real third-party codec or gzip, incl. empty/garbage gzip streams; payloads with a dictionary of meaningful prefixes) structured: metadata tuples from {0,±1,now,±2^31,±2^53,±2^56,2^63-1,-2^63,random int64} × flags × formats (all DSD ids, 127, 128, 200, 255) × payloads (empty, 1 B, JSON, random ≤4 KiB) × deleted or not: MarshalRecord bytes compared byte for byte with the model, NewRawWrapper results field by field, gencode marshal/unmarshal; typed records of the harness schema (round trip checked on the implementation, bytes compared with the model given the JSON payload); keys; malformed: every truncation and single-byte corruption (8 values per position) of up to 40/200 valid encodings, flag bytes 0..255, block length fields at all boundaries incl. 2^63, 2^64-1, version and meta-format bytes, random strings ≤64 B. Non-trivial: everything except keys without a colon; distinct by hash of the op lines.",
+		Rule:     "(also: wrappers that come from NewRawWrapper and are then modified — Data replaced by a same-length / other-length new slice, overwritten in place, backing array re-used, through the accessor, Format changed, metadata changed — serialised and parsed again; the Lean model of the serialiser is a pure function, i.e. no state is shared between calls: the re-entrant stream (a record whose JSON encoder serialises another record) and the concurrent stream (2–32 goroutines serialising records with distinct metadata and parsing their own output) tie exactly that purity on the implementation) (also: key accessors of Base as a state machine; Marshal/MarshalRecord of wrappers and typed records through the public methods incl. explicit formats, missing metadata and failing codecs; Unwrap with arbitrary database name/key, every format, valid and invalid payloads, keyed targets; GenCodeMarshal into caller-supplied buffers; CreateMeta/UpdateMeta/Duplicate on the implementation) (also: wrappers with history — metadata changed in place between serialisations; records whose meta section is produced by a real third-party codec or gzip, incl. empty/garbage gzip streams; payloads with a dictionary of meaningful prefixes) structured: metadata tuples from {0,±1,now,±2^31,±2^53,±2^56,2^63-1,-2^63,random int64} × flags × formats (all DSD ids, 127, 128, 200, 255) × payloads (empty, 1 B, JSON, random ≤4 KiB) × deleted or not: MarshalRecord bytes compared byte for byte with the model, NewRawWrapper results field by field, gencode marshal/unmarshal; typed records of the harness schema (round trip checked on the implementation, bytes compared with the model given the JSON payload); keys; malformed: every truncation and single-byte corruption (8 values per position) of up to 40/200 valid encodings, flag bytes 0..255, block length fields at all boundaries incl. 2^63, 2^64-1, version and meta-format bytes, random strings ≤64 B. Non-trivial: everything except keys without a colon; distinct by hash of the op lines.",
 		Generate: generate,
 		NewExec:  func(*hxlib.Run) hxlib.Exec { return &execWrap{} },
 		Monitor:  monitor,
